@@ -11,9 +11,9 @@ RULE = (
 ASSUMPTIONS = [
     "step bounds: n (TSP/ATSP/PDP[+1]); 2n+1 (CVRP, CVRPTW, SVRP, MTVRP); n+2 (OP, PCTSP); 2(n+ceil(sum demand/Q))+1 (SDVRP); "
     "n+agents (mTSP); 2*ops+1 (FJSP/JSSP); jobs*stages+(sum max durations+1)*machines+1 (FFSP); quota (FLP/MCP/DPP/MDPP); jobs (SMTWTP)",
-    "policy decode loops are covered in C11/C14 (they run on the same env.step)",
+    "policy level: AttentionModelPolicy decode loops (greedy / sampling / multistart) must call env.step at most bound(slowest row) times and never decode an all-masked row",
 ]
-REQUIRED_COUNTERS = ["episodes", "c02_step_events", "c02_batches_with_padding>=3"]
+REQUIRED_COUNTERS = ["episodes", "c02_step_events", "c02_batches_with_padding>=3", "c02_policy_forwards"]
 MIN_NONTRIVIAL = {"quick": 300, "thorough": 5000}
 WORKERS = {"quick": 12, "thorough": 16}
 BUDGET_S = {"quick": 400, "thorough": 3000}
@@ -39,12 +39,23 @@ def cases(tier, seed):
         if cfg["env"] in ("flp", "mcp") and cfg["k"] > 1:
             for r in range(reps):
                 out.append(dict(kind="other", cfg=cfg, family="mixed_quota", B=16, s=rnd.randrange(10**6)))
+    for env in ("tsp", "cvrp", "cvrptw", "sdvrp", "svrp", "op", "pctsp", "spctsp", "pdp", "mtsp", "mtvrp"):
+        for n in ((6, 10) if tier == "quick" else (5, 6, 10, 20)):
+            for dec in ("greedy", "sampling", "multistart_sampling"):
+                if dec.startswith("multistart") and env in ("mtsp", "svrp", "op"):
+                    continue
+                for r in range(1 if tier == "quick" else 4):
+                    out.append(dict(kind="policy", env=env, n=n, B=rnd.choice([1, 4, 7]), decode=dec, T=rnd.choice([1.0, 3.0]), s=rnd.randrange(10**6)))
     return out
 
 
 def run_case(ctx, case):
     from vlib import sweep
 
+    if case["kind"] == "policy":
+        from vlib import c02policy
+
+        return c02policy.case(ctx, case)
     if case["kind"] == "routing":
         sweep.routing_case(ctx, case, {"C02"})
     else:
@@ -55,8 +66,9 @@ MANIFEST = {
     "text": "Per-step structural monitor over every env.step of batched episodes of all 22 environments (routing, 19 MTVRP "
             "presets, FJSP/JSSP with and without waits, FFSP, SMTWTP, FLP/MCP incl. mixed quotas, DPP/MDPP on synthetic "
             "PDN data): no all-False mask row while the batch is unfinished, done monotone, finishing step within the "
-            "bound. Rows are driven by opposing choosers so finished rows are padded for many steps. Liveness is restated "
-            "as bounded progress.",
+            "bound. Rows are driven by opposing choosers so finished rows are padded for many steps; the decode "
+            "loops of AttentionModelPolicy (greedy / sampling / multistart) on 11 envs are additionally bounded by the slowest "
+            "row's step bound. Liveness is restated as bounded progress.",
     "note": "Bounds are generous upper bounds stated in ASSUMPTIONS; a hung episode is observed through the driver's own step "
             "cap (6n+30), never through wall-clock.",
     "technique": "runtime monitoring: per-step invariant monitor (mask non-empty, done monotone, bounded progress) on recorded batched episodes",
